@@ -60,6 +60,24 @@ for _e in ('TransactionBehavior', 'DropBehavior'):
         BARE_VARIANTS[_v] = _e
 
 
+def find_top_angle(s, token):
+    """index of `token` outside every (), [], {} and <> pair (`->` is not a bracket), or None"""
+    depth = 0
+    i, n = 0, len(s)
+    while i < n:
+        ch = s[i]
+        if ch in '([{<':
+            depth += 1
+        elif ch in ')]}':
+            depth -= 1
+        elif ch == '>' and not (i and s[i - 1] == '-'):
+            depth -= 1
+        elif depth == 0 and s.startswith(token, i):
+            return i
+        i += 1
+    return None
+
+
 def strip_generics(path):
     """remove ::<...> turbofish groups and lifetime-only generic groups from a path string"""
     out = []
@@ -127,6 +145,7 @@ class Engine:
                       'bound_exceeded': 0, 'unsupported': 0}
         self.entered = set()
         self.used_summaries = set()
+        self.probes = {}
         self.enums = dict(STD_ENUMS)
         for name, variants in self.src.enums.items():
             self.enums[name] = {v: d for v, d, _f in variants}
@@ -1077,7 +1096,7 @@ class Engine:
             j = mir.scan_balanced(s, 1, '>')
             inner = s[1:j]
             rest = s[j + 1:]
-            k = mir.find_top(inner, 0, ' as ')
+            k = find_top_angle(inner, ' as ')
             if k is not None and rest.startswith('::'):
                 ci.kind = 'trait'
                 ci.selfty = inner[:k].strip()
@@ -1156,6 +1175,10 @@ class Engine:
 
     def call(self, callee, args, fr, span):
         ci = self.parse_callee(callee)
+        if self.probes:
+            pr = self.probes.get(ci.norm)
+            if pr is not None:
+                pr(self, ci, args)      # observation only: the real body still runs
         st = self.stubs.get(ci.norm)
         if st is None and ci.target:
             st = self.stubs.get(ci.target)
